@@ -66,12 +66,17 @@ def run(tier):
                            (" got %s" % wide(ev["got"])) if "got" in ev else ""), ev)
         for ev in events[40:42]:
             chk.sample(ev)
+    # 4. sources in sandbox memory that change between reads: the value checked is the value converted
+    import fetchcommon as fc
+    nf, cf = fc.judge(chk, wd, "c06", "C06", ("wasm32", "ilp64", "lp16"))
+    total += nf
+    runs_distinct |= cf
     chk.count(evaluations=total, distinct=len(runs_distinct), traces=len(done))
     chk.cov["exhaustive"] = True
     chk.cov["exhaustive_scope"] = ("every source value for sources <= 16 bits (all 15x15 ordered pairs)" +
                                    (", and for all 32-bit sources (sweep32)" if thorough else "") +
                                    "; 32/64-bit sources otherwise at boundary vectors, dense windows at type limits and "
-                                   "seeded random values; crossings under ABIs wasm32 and lp16")
+                                   "seeded random values; crossings under ABIs wasm32 and lp16; converting loads and cell-to-cell stores whose source cell is rewritten after every read")
     chk.assumptions += ["flag-abort build: an abort is observed as a failed dynamic_check (RLBOX_CUSTOM_ABORT)",
                         "a run [lo,hi] is emitted only for consecutive tested values; validating its ends is sound "
                         "because representable values are convex (lemma Convex, TLC-checked on the scaled family)"]
